@@ -81,6 +81,38 @@ def return_values(tu, name, _memo={}):
     return vals
 
 
+def error_consts(tu, name, _memo={}):
+    """negative constants the repository function returns with an exception
+    certainly pending (its error values); a function such as a three-way
+    comparison returns -1 without one: that is not an error value"""
+    key = (tu.family, name)
+    if key in _memo:
+        return _memo[key]
+    _memo[key] = set()            # recursion guard
+    fn = tu.funcs[name]
+    if tu.body(name) is None:
+        return set()
+    an = ErrExc(CFG(fn), tu)
+    an.strict = True
+    try:
+        an.solve()
+    except AnalysisError:
+        _memo[key] = None
+        return None
+    out = set()
+    for r in an.cfg.returns():
+        if r.e is None:
+            continue
+        c = const_int(r.e)
+        if c is None or c >= 0:
+            continue
+        for st in an.IN.get(r.id, ()):
+            if sget(an.flags_stmt(r, st), "x") == "yes":
+                out.add(c)
+    _memo[key] = out
+    return out
+
+
 def always_raises(tu, name, _memo={}):
     """True when every return of the repository function is reached with an
     exception certainly pending (helpers such as IndexError(i))."""
@@ -135,7 +167,12 @@ class ErrExc(Analysis):
         if t.endswith("*"):
             return "ptr", None
         if c[0] == "fn" and c[1] in self.tu.funcs:
-            return "int", return_values(self.tu, c[1])
+            vals = return_values(self.tu, c[1])
+            if getattr(self, "strict", False) and vals and min(vals) < 0 and c[1] != self.cfg.name:
+                ec = error_consts(self.tu, c[1])
+                if ec is not None and not ec:
+                    return "plain", vals      # negative results without an exception: not error values
+            return "int", vals
         if c[0] == "fn" and c[1] in STATUS_ONLY:
             return "int", {0, -1}
         return "int", None
@@ -158,6 +195,8 @@ class ErrExc(Analysis):
             r = {"==": x == cst, "!=": x != cst, "<": x < cst, ">": x > cst,
                  "<=": x <= cst, ">=": x >= cst}[op]
             return r == want
+        if kind == "plain":
+            return "ok"
         if kind == "ptr":
             dom = [0, 1]
             err = lambda x: x == 0
